@@ -78,6 +78,32 @@ pth_truncated!(c17_pth_cut_55, 55);
 pth_truncated!(c17_pth_cut_36, 36);
 pth_truncated!(c17_pth_cut_16, 16);
 
+/// hostile node counts (concrete per harness: a symbolic count does not close) on a header-only image:
+/// rejected without a panic
+macro_rules! pth_hostile_count {
+    ($name:ident, $count:expr) => {
+        #[kani::proof]
+        #[kani::unwind(8)]
+        #[kani::stub(alloc::fmt::format, stub_format)]
+        fn $name() {
+            let mut img: [u8; 16] = kani::any();
+            img[0] = b'L'; img[1] = b'F'; img[2] = b'S'; img[3] = b'P'; img[4] = b'T'; img[5] = b'H';
+            let c: i32 = $count;
+            let cb = c.to_le_bytes();
+            img[8] = cb[0]; img[9] = cb[1]; img[10] = cb[2]; img[11] = cb[3];
+            let mut cur = Cursor::new(&img[..]);
+            let r = Pth::read(&mut cur);
+            let ok = r.is_ok();
+            std::mem::forget(r);
+            assert!(!ok, "C17:PTH declaring more nodes than the input holds accepted");
+        }
+    };
+}
+pth_hostile_count!(c17_pth_count_neg1, -1);
+pth_hostile_count!(c17_pth_count_min, i32::MIN);
+pth_hostile_count!(c17_pth_count_max, i32::MAX);
+pth_hostile_count!(c17_pth_count_million, 1_000_000);
+
 /// SMX header (64 bytes) + object count 0 + checkpoint count 0/1
 macro_rules! smx_image {
     ($name:ident, $nobj:expr, $ncp:expr, $len:expr, $objbytes:expr) => {
